@@ -99,7 +99,7 @@ def run_replay_file(prop, path):
     if not binp:
         print(f"UNDECIDED property={prop} reason={err}")
         return 2
-    p = subprocess.run([binp, "one", inp["target"], json.dumps(inp["input"])], capture_output=True, text=True)
+    p = subprocess.run([binp, "one", inp["target"], json.dumps(inp["input"], separators=(",", ":"))], capture_output=True, text=True)
     print(p.stdout.strip())
     if p.returncode == 1:
         print(f"VIOLATION property={prop} replay={path}")
